@@ -7,6 +7,7 @@ import (
 	"math/big"
 	"os"
 	"path/filepath"
+	"sort"
 	"time"
 
 	sdk "github.com/cosmos/cosmos-sdk/types"
@@ -190,6 +191,14 @@ func powCases(e *env) {
 			try(mh, m.name, false)
 			r.Count("pow/mutants_reaching_the_seal_check", 1)
 		}
+		if i == 0 {
+			// near misses: seals whose mix digest is the genuine ethash digest for their nonce but whose result is above the
+			// boundary 2^256/difficulty - of N drawn nonces the ones that come CLOSEST to the boundary are submitted
+			nearMisses(r, rng, h, r.N(150, 600), r.N(2, 5), func(mh ethtypes.Header, label string) {
+				try(mh, label, false)
+				r.Count("pow/near_miss_seals_with_genuine_mix_digest", 1)
+			})
+		}
 		if !try(h, "unmodified", true) {
 			break // later headers have no stored parent any more
 		}
@@ -211,5 +220,42 @@ func powCases(e *env) {
 	}
 	if len(hist) > 0 {
 		r.Sample(map[string]interface{}{"case": cid, "start": hs[start].Height.RevisionHeight, "steps": hist[:minInt(len(hist), 30)]})
+	}
+}
+
+// nearMisses draws n nonces for header h, evaluates ethash for each (light cache, through the verif hook of the client's own
+// engine) and hands the k headers whose result misses the boundary by the least to submit, mix digest set to the genuine one.
+func nearMisses(r *core.Run, rng interface{ Uint64() uint64 }, h ethtypes.Header, n, k int, submit func(ethtypes.Header, string)) {
+	eng := ethtypes.New(ethtypes.Config{}, nil, false)
+	defer eng.Close()
+	target := new(big.Int).Div(new(big.Int).Lsh(big.NewInt(1), 256), new(big.Int).SetBytes(h.Difficulty))
+	type cand struct {
+		nonce  uint64
+		digest []byte
+		result *big.Int
+	}
+	var cs []cand
+	for i := 0; i < n; i++ {
+		mh := cloneHdr(h)
+		mh.Nonce = rng.Uint64()
+		if mh.Nonce == h.Nonce {
+			continue
+		}
+		d, res := eng.VerifLightPoW(mh.ToVerifyHeader())
+		v := new(big.Int).SetBytes(res)
+		if v.Cmp(target) <= 0 {
+			r.Count("pow/drawn_nonce_that_really_seals_the_header(!)", 1)
+			continue
+		}
+		cs = append(cs, cand{mh.Nonce, append([]byte{}, d...), v})
+	}
+	sort.Slice(cs, func(i, j int) bool { return cs[i].result.Cmp(cs[j].result) < 0 })
+	for i := 0; i < k && i < len(cs); i++ {
+		mh := cloneHdr(h)
+		mh.Nonce, mh.MixDigest = cs[i].nonce, cs[i].digest
+		submit(mh, fmt.Sprintf("no-work/genuine-mix-digest/near-miss-%d-of-%d", i+1, n))
+	}
+	if len(cs) > 0 {
+		r.Set("pow_near_miss_closest_result_over_boundary", new(big.Int).Div(cs[0].result, target).String()+"x the boundary")
 	}
 }
